@@ -201,6 +201,31 @@ def call(fn, ctx, *a, **kw):
         raise Inconclusive()
 
 
+# models whose spreading pressure is re-integrated independently (TemkinApprox: open finding of C11, constant offset; BET:
+# pole at 1/K inside the range of fictitious pressures)
+_SP_BY_QUADRATURE = ("Henry", "Langmuir", "DSLangmuir", "TSLangmuir", "Quadratic", "Toth", "JensenSeaton")
+
+
+def _sp_quadrature(iso, p0):
+    """int_0^p0 n(p)/p dp = int_{-inf}^{ln p0} n(e^u) du with the Henry tail below e^(u_lo) added in closed form."""
+    from scipy import integrate
+    u_hi = math.log(p0)
+    u_lo = u_hi - 60.0
+
+    def f(u):
+        return float(np.ravel(np.asarray(iso.loading_at(math.exp(u)), dtype=float))[0])
+
+    try:
+        with np.errstate(all="ignore"):
+            val, err = integrate.quad(f, u_lo, u_hi, limit=400, epsabs=0.0, epsrel=1e-10)
+            tail = f(u_lo)
+    except Exception:  # noqa - a model that cannot be evaluated there makes no reference
+        return None
+    if not (math.isfinite(val) and math.isfinite(tail)) or err > 1e-7 * abs(val):
+        return None
+    return val + tail
+
+
 def _xmin_label(ref):
     xm = float(ref["x"].min())
     if xm >= 1e-2:
@@ -266,6 +291,16 @@ def assess(isos, pures, p, loadings, ref, what, ctx):
         raise Violation(f"{what}: spreading pressures {_fmt(sp)} / pure loadings {_fmt(n0)} at the fictitious pressures "
                         f"{_fmt(p0)} are not finite; returned loadings {_fmt(l)}, p={_fmt(p)}", tag="nonfinite",
                         detail=detail)
+    # the spreading pressure of a MODEL component is the integral of its own loading over ln p (the definition the clause
+    # relies on): the library's closed form / quadrature is compared with an independent quadrature of loading_at
+    for i in range(n):
+        iso = isos[i]
+        if isinstance(pures[i], R.ModelPure) and iso.model.name in _SP_BY_QUADRATURE and p0[i] < 1e6:
+            ref_sp = _sp_quadrature(iso, float(p0[i]))
+            if ref_sp is not None and not abs(sp[i] - ref_sp) <= 1e-6 * abs(ref_sp) + 1e-12:
+                raise Violation(f"{what}: component {i} ({iso.model.name} {dict(iso.model.params)}): spreading pressure "
+                                f"{sp[i]!r} at p_i/x_i = {p0[i]!r} is not the integral of loading/p over (0, p] = {ref_sp!r}",
+                                tag="sp_not_the_integral", detail=detail)
     mean = float(np.mean(np.abs(sp)))
     spread = float(sp.max() - sp.min())
     if not spread <= EPS_PI * mean:
